@@ -23,6 +23,20 @@ def queried_dirs_registered_for_validation(ck: Checker, rule: str) -> None:
             a = get_arg(c, gi, gi.pos_params[2] if len(gi.pos_params) > 2 else "dir_objs", pos=2)
             if isinstance(a, ast.Name):
                 tables.add(a.id)
+    for _ in range(3):
+        # the table may have been filled under another name: `a = b`, `x, y = (p, q)` or `x, y = Record(p, q)` (positional)
+        for a in walk_own(fn.node):
+            if not (isinstance(a, ast.Assign) and len(a.targets) == 1):
+                continue
+            t, v = a.targets[0], a.value
+            if isinstance(t, ast.Name) and t.id in tables and isinstance(v, ast.Name):
+                tables.add(v.id)
+            if isinstance(t, ast.Tuple):
+                vs = v.elts if isinstance(v, ast.Tuple) else (v.args if isinstance(v, ast.Call) and not v.keywords else None)
+                if vs is not None and len(vs) == len(t.elts):
+                    for te, ve in zip(t.elts, vs):
+                        if isinstance(te, ast.Name) and te.id in tables and isinstance(ve, ast.Name):
+                            tables.add(ve.id)
     ck.floor(rule, len(tables), 1, "directory table handed to _indexed_dir_hashes in status()")
     idx = "index" if fn.has_param("index") else None
     src = fn.pos_params[1] if len(fn.pos_params) > 1 else "obj_ids"
@@ -80,3 +94,108 @@ def removed_hashes_stay_in_exists(ck: Checker, rule: str) -> None:
         ck.require(not rebinds, rule, fn, rebinds[0] if rebinds else n, "ids taken out of the pending set stay in the set they were answered into",
                    f"`{name}` is re-bound (`{rebinds[0].text()[:50] if rebinds else ''}`) after its ids were removed from the pending hashes: ids answered from the validated directories are then neither reported as existing nor as missing - the objects are silently sent again, or a requested object is never fetched and never reported",
                    construct=f"{n.text()[:50]} / not re-bound afterwards")
+
+
+def canonical_json_encoding(ck: Checker, rule: str) -> None:
+    """Tree.as_bytes: the canonical bytes of a listing are `json.dumps(rows, sort_keys=True)` in JSON's default (ASCII,
+    default separators) encoding, UTF-8 encoded.  Any further keyword (ensure_ascii, separators, indent, default, cls)
+    changes the bytes - and with them the identifier - of some listings (non-ASCII names) but not of others."""
+    ab = ck.prog.func("hashfile.tree", "Tree.as_bytes")
+    dumps = [c for c in walk_own(ab.node) if isinstance(c, ast.Call) and call_name(c) == "dumps"]
+    ck.floor(rule, len(dumps), 1, "json.dumps calls in Tree.as_bytes")
+    for c in dumps:
+        kws = {k.arg: k.value for k in c.keywords}
+        extra = sorted(k for k in kws if k not in ("sort_keys",) and k is not None)
+        sk = kws.get("sort_keys")
+        ok = isinstance(sk, ast.Constant) and sk.value is True and not extra and None not in kws and len(c.args) == 1
+        ck.require(ok, rule, ab, c, "the listing is serialised with json.dumps(rows, sort_keys=True) and nothing else",
+                   f"`{norm(c)[:80]}` is not the canonical encoding json.dumps(rows, sort_keys=True){' (extra: ' + ', '.join(extra) + ')' if extra else ''}: listings with e.g. non-ASCII names get different bytes, hence a different identifier than the one every other writer computes for the same content",
+                   construct="as_bytes / canonical JSON")
+    encs = [c for c in walk_own(ab.node) if isinstance(c, ast.Call) and is_method_call(c, "encode")]
+    for c in encs:
+        arg = c.args[0] if c.args else next((k.value for k in c.keywords if k.arg == "encoding"), None)
+        ok = arg is None or (isinstance(arg, ast.Constant) and str(arg.value).lower().replace("_", "-") in ("utf-8", "utf8")) and not any(k.arg == "errors" for k in c.keywords)
+        ck.require(ok, rule, ab, c, "the serialised listing is UTF-8 encoded", f"`{norm(c)[:60]}` does not encode the listing as UTF-8", construct="as_bytes / utf-8")
+
+
+def _fold_bytes(e: ast.expr, consts, depth: int = 0):
+    """constant-fold a bytes expression made of literals, bytes(range(a, b)), bytes([..]) and + ; None if not of that form"""
+    if depth > 4:
+        return None
+    if isinstance(e, ast.Constant) and isinstance(e.value, bytes):
+        return e.value
+    if isinstance(e, ast.Name) and e.id in consts:
+        return _fold_bytes(consts[e.id], consts, depth + 1)
+    if isinstance(e, ast.BinOp) and isinstance(e.op, ast.Add):
+        l_, r_ = _fold_bytes(e.left, consts, depth + 1), _fold_bytes(e.right, consts, depth + 1)
+        return None if l_ is None or r_ is None else l_ + r_
+    if isinstance(e, ast.Call) and isinstance(e.func, ast.Name) and e.func.id in ("bytes", "bytearray") and len(e.args) == 1 and not e.keywords:
+        a = e.args[0]
+        if isinstance(a, ast.Call) and isinstance(a.func, ast.Name) and a.func.id == "range" and 1 <= len(a.args) <= 3 and all(isinstance(x, ast.Constant) and isinstance(x.value, int) for x in a.args):
+            try:
+                return bytes(range(*[x.value for x in a.args]))
+            except ValueError:
+                return None
+        if isinstance(a, (ast.List, ast.Tuple)) and all(isinstance(x, ast.Constant) and isinstance(x.value, int) and 0 <= x.value < 256 for x in a.elts):
+            return bytes(x.value for x in a.elts)
+        if isinstance(a, (ast.BinOp, ast.Constant, ast.Name)):
+            return _fold_bytes(a, consts, depth + 1)
+    return None
+
+
+def text_chars_exact(ck: Checker, rule: str) -> None:
+    """hashfile.istextfile: the byte values that count as text are printable ASCII plus \\n \\r \\t \\f \\b - the set the
+    md5-dos2unix digest is defined with.  A larger set (e.g. all bytes >= 0x80) makes NUL-free binary content text, so its
+    CRLF pairs are rewritten before hashing; a smaller one changes the digest of text files the other way."""
+    fn = ck.prog.func("hashfile.istextfile", "istextblock")
+    consts = {}
+    for st in fn.module.tree.body:
+        tg = st.targets[0] if isinstance(st, ast.Assign) and len(st.targets) == 1 else (st.target if isinstance(st, ast.AnnAssign) else None)
+        if isinstance(tg, ast.Name) and getattr(st, "value", None) is not None:
+            consts[tg.id] = st.value
+    # the table handed to translate() as the characters to delete
+    tabs = []
+    for c in walk_own(fn.node):
+        if isinstance(c, ast.Call) and is_method_call(c, "translate") and len(c.args) == 2:
+            tabs.append(c.args[1])
+        if isinstance(c, ast.Call) and is_method_call(c, "translate") and any(k.arg == "delete" for k in c.keywords):
+            tabs.append(next(k.value for k in c.keywords if k.arg == "delete"))
+    ck.floor(rule, len(tabs), 1, "text-character tables used by istextblock (translate(None, TABLE))")
+    want = set(range(32, 127)) | {8, 9, 10, 12, 13}
+    for t in tabs:
+        alts = [t]
+        if isinstance(t, ast.Name) and t.id not in consts:
+            alts = [d.value for d in __import__("sv.prov", fromlist=["scope_of"]).scope_of(fn).get(t.id) if d.value is not None]
+        for alt in alts:
+            val = _fold_bytes(alt, consts)
+            ck.floor(rule, 0 if val is None else 1, 1, f"constant value of the text-character table `{norm(t)[:40]}`")
+            got = set(val)
+            ck.require(got == want, rule, fn, t, "the text-character table is printable ASCII plus \\n \\r \\t \\f \\b",
+                       f"the text-character table differs from printable ASCII + \\n\\r\\t\\f\\b (extra bytes: {sorted(got - want)[:8]}{'...' if len(got - want) > 8 else ''}, missing: {sorted(want - got)[:8]}): NUL-free binary content with such bytes is now treated as text and CRLF-normalised before hashing (or text is no longer normalised), so md5-dos2unix digests change",
+                       construct=f"{norm(t)[:40]} / text characters")
+
+
+def link_destination_is_link_text(ck: Checker, rule: str) -> None:
+    """fsutils._localfs_info: the `destination` of a symlink is what the link itself says (readlink), not a resolved path:
+    the relink test compares it verbatim with the cache object's path, and a resolved path equals it neither when the cache
+    is reached through a symlinked directory (every checkout re-creates every link) nor only when the link is direct
+    (a chain of links ending in the object is accepted as up to date)."""
+    fn = ck.prog.func("fsutils", "_localfs_info")
+    vals = []
+    for x in walk_own(fn.node):
+        if isinstance(x, ast.Assign) and any(isinstance(t, ast.Subscript) and isinstance(t.slice, ast.Constant) and t.slice.value == "destination" for t in x.targets):
+            vals.append(x.value)
+        if isinstance(x, ast.Dict):
+            for k, v in zip(x.keys, x.values):
+                if isinstance(k, ast.Constant) and k.value == "destination":
+                    vals.append(v)
+    ck.floor(rule, len(vals), 1, "`destination` field of the local stat record")
+    path = fn.pos_params[0] if fn.pos_params else "path"
+    from ..prov import expand1
+
+    for v in vals:
+        alts = [v] + expand1(ck.prog, fn, v, levels=2)
+        ok = any(isinstance(a, ast.Call) and (call_name(a) or "").split(".")[-1] == "readlink" and ((a.args and norm(a.args[0]) == path) or (isinstance(a.func, ast.Attribute) and path in norm(a.func.value))) for a in alts)
+        ck.require(ok, rule, fn, v, "a symlink's destination is the link's own text (readlink)",
+                   f"the recorded destination is `{norm(v)[:60]}`, not readlink({path}): a resolved or rewritten path no longer compares equal to the cache object's path the way the link was written, so relinking checkouts either re-create every link each time or accept an indirect link as up to date",
+                   construct="destination / readlink")
